@@ -83,6 +83,22 @@ class GeomAdapter(Adapter):
                     fail("densities", freq.tolist(), (dens * h.bin_sizes).tolist())
                 if consecutive(L) and [float(v) for v in h.numpy_bins] != [x(L[0][0])] + [x(r) for (_l, r) in L]:
                     fail("numpy_bins", None, h.numpy_bins.tolist())
+                # a selection of the bins (after the forms above have been read and cached) has forms of its own
+                if len(L) >= 2:
+                    for sel, Ls in ((slice(1, None), L[1:]), (slice(None, -1), L[:-1])):
+                        sub = h[sel]
+                        forms = {"bins": np.asarray(sub.bins).tolist(), "left": [float(v) for v in sub.bin_left_edges],
+                                 "right": [float(v) for v in sub.bin_right_edges], "widths": [float(v) for v in sub.bin_widths],
+                                 "centers": [float(v) for v in sub.bin_centers]}
+                        want = {"bins": [[x(l), x(r)] for (l, r) in Ls], "left": [x(l) for (l, r) in Ls], "right": [x(r) for (l, r) in Ls],
+                                "widths": [x(r) - x(l) for (l, r) in Ls], "centers": [(x(l) + x(r)) / 2 for (l, r) in Ls]}
+                        if consecutive(Ls):
+                            forms["numpy_bins"] = [float(v) for v in sub.numpy_bins]
+                            forms["edges"] = [float(v) for v in sub.edges]
+                            want["numpy_bins"] = want["edges"] = [x(Ls[0][0])] + [x(r) for (_l, r) in Ls]
+                        if forms != want:
+                            fail("selection_forms", want, forms)
+                            break
             elif action == "Geometry2D":
                 LL, sizes, total = args
                 a = self.pe.affine[0]
@@ -117,6 +133,17 @@ class GeomAdapter(Adapter):
                 dens = np.asarray(h.densities)
                 if not all(self._close(dens[ix] * h.bin_sizes[ix], freq[ix], 2) for ix in np.ndindex(*shape)):
                     fail("densities", freq.tolist(), (dens * h.bin_sizes).tolist())
+                # per-axis selection after the forms above were read: edges, widths and sizes of the part
+                if shape[0] >= 2:
+                    _ = h.get_bin_edges()
+                    sub = h[1:, :]
+                    Ls = LL[0][1:]
+                    we = [x(Ls[0][0])] + [x(r) for (_l, r) in Ls] if consecutive(Ls) else None
+                    got_e = [float(v) for v in sub.binnings[0].numpy_bins] if we is not None else None
+                    ws = [x(r) - x(l) for (l, r) in Ls]
+                    if got_e != we or sub.get_bin_widths(0).tolist() != ws or np.asarray(sub.bin_sizes).shape != (shape[0] - 1, shape[1]) \
+                            or not np.array_equal(np.asarray(sub.bin_sizes), np.asarray(h.bin_sizes)[1:, :]):
+                        fail("selection_forms", {"edges": we, "widths": ws}, {"edges": got_e, "widths": sub.get_bin_widths(0).tolist()})
             elif action == "Measures":
                 cls, table = args
                 r, z = np.array(self.redges), np.array(self.zedges)
